@@ -212,14 +212,14 @@ PLAN['C06'] = {
     'technique': 'contract-based deductive verification (Verus) of the per-tile recursion of the 2D renderer - Worker::render_tile_recurse and Worker::render_tile_pixels of fidget-raster/src/pixel.rs and the tile helpers Tile::{new, add}, TileSizesRef::{index, get, pixel_offset} of fidget-raster/src/lib.rs - on their real text, generic over the Function, with the three component properties the renderer composes (interval enclosure, simplification, bulk evaluation through the shape wrappers) as stated contracts of trusted stand-ins; bounded native contract runner (render vs per-pixel Context::eval) for the whole pipeline',
     'level_text': 'Partial. Proved unbounded (unit raster; every tile-size list TileSizes::new accepts with root tile <= 4096, every depth, every tile position inside a root tile, every previous image content, pixel-perfect or not): after render_tile_recurse EVERY pixel of the tile holds the value of the ORIGINAL shape function at that pixel\'s sample position, or (unless pixel-perfect) a fill whose inside flag is the sign of that value, and NO pixel outside the tile is written; so skipping whole tiles on interval evidence and evaluating simplified tapes inside tiles is unobservable, given the three hypotheses below. No panic in the recursion (indices, unreachable!() arms, usize arithmetic). Also proved (same unit, function `render` of pixel.rs with Image::{new, width, height, decode_position} of lib.rs on their real text): the assembly of the root tiles into the image - every pixel (x, y) of the returned image holds the value of the shape at (x, y) or a correctly signed fill, given that render_tiles returns one worker output per root tile of the image (stand-in with exactly the postcondition proved for the recursion at depth 0); no out-of-range image access (the two assertions of decode_position). NOT proved: the hypotheses themselves at this call site (they are the claimed properties C03+C14, C04, C01/C02+C14, each with its own check), render_tiles (tile generation, rayon workers), Worker::new / render_tile, TileSizesRef::new (iterator position), the RawDistancePixel bit packing, the screen-to-world matrix: bounded contract render2d only (all of these run natively there, every pixel compared with Context::eval).',
     'level_note': 'Trusted: Verus+Z3; the stand-ins of unit raster (ShapeTracingEval / ShapeBulkEval / RenderHandle contracts = the assumed component properties; nalgebra Point2/Vector2 as two-field structs; Image as its data vector; fill_range as a verified model of slicing + fill); six float axioms (exact and monotone usize -> f32 conversion below 2^24, order chaining, comparison operators equal their specification).',
-    'legs': [leg_verus('raster'), leg_bounded('render2d')],
+    'legs': [leg_verus('raster'), leg_verus('tiles'), leg_bounded('render2d')],
     'cex': ['render2d'],
     'explanation': 'The postcondition tile_ok / frame of the recursion is stated about the handle\'s original function; the recursion passes simplified handles down and the proof transfers their pixels back through the agreement hypothesis on the tile\'s own box (units/raster/__init__.py).',
     'assumptions': ['C03 + C14 at the call site: the sign decided by the interval result on the tile\'s box is the sign of the function at every pixel of the tile; a returned trace is valid on that box',
                     'C04 at the call site: RenderHandle::simplify returns a function that agrees with its parent on the traced box, and the parent keeps its function (cached child handles)',
                     'C01/C02 + C14 at the call site: the bulk evaluator returns, per sample, the function at that sample',
                     'pixel coordinates below 2^24 (f32 conversion exact); z is a number',
-                    'render_tiles (tile list, per-thread workers, cancellation): stand-in whose contract is one worker output per root tile of the image; TileSizesRef::new: stand-in returning a suffix of the tile-size list; usize is 64 bits'],
+                    'render_tiles (tile list, per-thread workers, cancellation): stand-in whose contract is one worker output per root tile of the image; TileSizesRef::new: stand-in returning a suffix of the tile-size list - proved in unit tiles (TileSizes::new accepts exactly the ordered, divisible lists; TileSizesRef::new returns the suffix starting at the root tile); NOT guaranteed by the code: the smallest size is >= 1 (TileSizes::new(&[0]) is Ok) and root tile <= 4096; usize is 64 bits'],
 }
 del NOT_APPLICABLE['C06']
 
@@ -228,14 +228,14 @@ PLAN['C07'] = {
     'technique': 'contract-based deductive verification (Verus) of the 3D renderer of fidget-raster/src/voxel.rs on its real text - Worker::render_tile (z-descending slab loop with early termination), Worker::render_tile_recurse (early exit on filled pixels, interval fill / skip, simplification, z-descending recursion), Worker::render_tile_pixels (column collection, per-voxel evaluation, first-hit search, column compaction, gradient batch) and render (merge of the root tiles with the depth clamp) - generic over F: Function, the proof text woven line by line into the mechanically extracted and rewritten functions; the evaluator components as trusted stand-ins whose contracts are the claimed properties C03/C04/C05/C01/C02/C14; bounded native contract runner for the whole renderer against the brute-force heightmap',
     'level_text': 'Partial. Proved unbounded (unit voxel; every tile-size list TileSizes::new accepts with root tile <= 4096, every recursion depth and tile position, voxel coordinates below 2^24, grid depth >= 1, whatever the worker held before): for every pixel column of the image the reported pixel is the clamp to the grid depth of a pixel p with: p empty (depth 0) and no voxel of the column inside, or 1 <= p.depth <= Z (Z = top of the last slab of root tiles), the voxel p.depth - 1 is inside the ORIGINAL shape, p.normal is the gradient evaluation of the original shape at that voxel and no voxel between p.depth and Z is inside, or p.depth == Z + 1 and the voxel just above the slabs is inside (the case the property excludes); a column whose highest inside voxel is the top voxel of the grid or above is reported saturated (depth = grid depth, normal (0,0,1)), every other column exactly as found. Early termination (all pixels filled, slab loop break), the per-pixel occlusion skip, interval fills and simplified tapes are inside the proved functions, so they are unobservable by construction of the postcondition. No panic: the assertions `size > 0` and `depth < z`, every try_into().unwrap(), every index into the tile image and the scratch arrays (the get_unchecked_mut writes are checked as ordinary indexing: the SAFETY comment is discharged). ASSUMED, as contracts of stand-ins: interval enclosure on the tile box and validity of the returned trace (C03, C14); the simplified function agrees with its parent in value and in gradient evaluation on the traced box (C04, C05); the bulk evaluators return per sample the (gradient) evaluation of the function on that sample (C01/C02, C05, C14); render_tiles returns one worker output per root tile of the image (rayon workers: not under contract). Bounded only (render3d): the whole renderer against per-voxel Context::eval on 5 shapes x grid sizes x tile lists x transforms x VM/JIT x thread pools.',
     'level_note': 'Level other: the composition performed by the renderer is proved on its real text, relative to the component properties, which are claimed (and checked) separately. Trusted: Verus+Z3; the stand-ins of unit voxel (ShapeTracingEval / ShapeBulkEval / RenderHandle contracts; nalgebra Point2/Point3/Vector2/Vector3 as plain structs; Image as its data vector; Image::new, VoxelSize accessors, mem::take, slice prefix, From<u32> for VoxelSize as one-line stand-ins); float facts ax_cast_mono, ax_add_cast (voxel coordinates below 2^24 convert exactly and monotonically), ax_cmp; ax_px_default (the derived Default of GeometryPixel has depth 0); verified models of library idioms: find_neg (chunks + enumerate + find), div_ceil_u32; rewrite rules R-all, R-continue, R-revrange, R-unchecked, R-chunks-find, R-enumerate, R-prefix, R-pow, R-tryinto, R-cast, R-fadd, R-opcall, R-ptindex, R-imgindex, R-index, R-minmax, R-from, R-divceil, R-memtake, R-let, R-tail, R-iter-tuple, R-traitfn (each counted in the evidence); the line-by-line weaving of the proof template (difflib alignment: real lines are emitted, never template lines). Not covered: Worker::new / Scratch::new (the scratch sizes are a precondition), render_tiles, cancellation, TileSizesRef::new (stand-in: a suffix of the list), the effects of fidget-raster/src/effects.rs.',
-    'legs': [leg_verus('voxel'), leg_bounded('render3d')],
+    'legs': [leg_verus('voxel'), leg_verus('tiles'), leg_bounded('render3d')],
     'cex': ['render3d'],
     'explanation': 'pv(f, p0, p1, ax, ay, cz, n, zl): the state of one pixel while the slab [cz, cz+n) is worked through from the top down to zl; lemma_pv_step composes a sub-slab below everything done so far (a fill below an already-looked-at sub-slab cannot raise the pixel: the voxel above it would have been found); vox_ok = pv at zl = cz is the postcondition of render_tile_recurse and, with cz = 0 and n = Z, of render_tile; lemma_vox_transfer moves the statement from the simplified function to the original one through agreement on the tile box; render_tile_pixels is proved with ghost maps from pixel numbers to collected columns and from columns to gradient samples (strictly increasing, so compaction never overwrites a column still to be read).',
     'assumptions': ['C03 + C14 at the call site: the sign decided by the interval result on the tile box is the sign of the function at every voxel of the slab and of the voxel row just above it; a returned trace is valid on that box',
                     'C04 + C05 at the call site: RenderHandle::simplify returns a function that agrees with its parent, in value and in gradient evaluation, on the traced box',
                     'C01/C02/C05 + C14 at the call site: the float-slice and grad-slice evaluators return, per sample, the (gradient) evaluation of the function at that sample',
                     'voxel coordinates below 2^24 (f32 conversion exact), grid depth >= 1, usize is 64 bits, root tile <= 4096',
-                    'render_tiles (tile list, per-thread workers, cancellation): stand-in whose contract is one Worker::render_tile output per root tile of the image; TileSizesRef::new: stand-in returning a suffix of the tile-size list; Worker::new / Scratch::new: the scratch array sizes are a precondition'],
+                    'render_tiles (tile list, per-thread workers, cancellation): stand-in whose contract is one Worker::render_tile output per root tile of the image; TileSizesRef::new: stand-in returning a suffix of the tile-size list - proved in unit tiles; NOT guaranteed by the code: the smallest size is >= 1 (TileSizes::new(&[0]) is Ok); Worker::new / Scratch::new: the scratch array sizes are a precondition'],
 }
 del NOT_APPLICABLE['C07']
 
